@@ -36,6 +36,16 @@ try:
                     lock[p].append(o["id"])
 except Exception as e:
     print("asmvc lock skipped:", e)
+fout = tempfile.mktemp(suffix=".json")
+subprocess.run([os.path.join(here, "bin", "frame"), "-out", fout], env=env)
+try:
+    for o in json.load(open(fout)).get("obligations", []):
+        if o["status"] == "discharged":
+            for p in o.get("props", []):
+                if p in lock and "frame" in propcfg.PROPS[p]["engines"]:
+                    lock[p].append(o["id"])
+except Exception as e:
+    print("frame lock skipped:", e)
 extra = os.path.join(here, "obligations.extra.json")
 if os.path.exists(extra):
     for p, l in json.load(open(extra)).items():
